@@ -707,6 +707,16 @@ func (b *bitstream) readNsecs(length uint64) (int, bool, uint8, error) {
 		return 0, false, 0, &SyntaxError{msg, b.pos}
 	}
 
+	if d.scale < 0 {
+		// A positive exponent makes the fraction a whole number: only zero is below one. (Shifting such a
+		// value would also take an exponent near the int32 limit out of bounds.)
+		if d.n.Sign() != 0 {
+			msg := fmt.Sprintf("invalid timestamp fraction: %v", d)
+			return 0, false, 0, &SyntaxError{msg, b.pos}
+		}
+		return 0, false, 0, nil
+	}
+
 	nsec, err := d.ShiftL(9).trunc()
 	if err != nil || nsec < 0 || nsec > 999999999 {
 		msg := fmt.Sprintf("invalid timestamp fraction: %v", d)
